@@ -11,7 +11,7 @@ META = {
                "R-2 from_i64 is a chain of `i == discriminant(V) -> Some(V)` with one arm per variant and default None, "
                "to_i64 is the discriminant cast (so the two are mutually inverse by table); R-3 each is_private body is "
                "`i < -65536` and no registered value satisfies it; R-4 label decoding classifies Integer -> checked i64 -> "
-               "from_i64 -> Assigned | (is_private -> PrivateUse | reject) | reject, Text kept, anything else a type error; "
+               "from_i64 -> Assigned | (is_private -> PrivateUse | reject) | reject, Text kept, anything else a type error, each exit under exactly those guards; R-6 no caller of a label decoder turns the rejection of an unregistered value into acceptance; "
                "R-5 each label-typed position uses the registry the spec names.",
     "does_not_decide": "nothing inside the repository; the IANA table itself (spec/iana.py) is a trusted transcription",
     "trusted_base": ["rustc constant evaluation of enum discriminants (E0081 makes them distinct)",
@@ -160,6 +160,12 @@ def check(ctx):
         ctx.ob("R-5", "%s.%s" % (adt, field), got == ty, "%s.%s has label type %s" % (adt, field, ty),
                detail={"found": got})
 
+    # R-6 "any other unregistered value is rejected": no caller of a label decoder turns that rejection into acceptance
+    # (the same rule as C15 R-5, for the two unregistered-value errors)
+    from rules import c15
+    c15.check_rejections_propagate(ctx, "R-6", set(), variants=("UnregisteredIanaValue", "UnregisteredIanaNonPrivateValue"),
+                                   what="an unregistered label value", floor=15)
+
 
 def check_private_predicate(ctx, rule, enum):
     """<enum as WithPrivateRange>::is_private(i) is exactly i < -65536 (re-used by C08/C10/C18 for the registry they rely on)"""
@@ -188,6 +194,29 @@ def _is_narrowed(t):
     return x is not None and is_call(x, "core::convert::TryInto::try_into") and x[2][0] == ("field", ("variant", ("param", 0), "Integer"), "0")
 
 
+def _chain_guards(prog, pv, conds):
+    """the decisions an exit of a label decoder depends on, besides the variant of the input and `?` edges:
+    {('from_i64', variants), ('is_private', bool), ('other', text)}"""
+    out = set()
+    for c in conds:
+        if c[0] == ("discr", ("param", 0)):
+            continue
+        if c[0][0] == "discr" and is_call(c[0][1], "core::ops::try_trait::Try::branch"):
+            continue
+        cv = cond_variants(prog, pv, c)
+        if cv and is_call(cv[0], "core::convert::TryInto::try_into"):
+            continue        # the range check of the narrowing written as a match (C15 R-1 / R-3 judge it)
+        if cv and is_call(cv[0], "iana::EnumI64::from_i64"):
+            out.add(("from_i64", tuple(sorted(cv[1]))))
+            continue
+        nb = normalize_bool_cond(c)
+        if nb and is_call(nb[0], "iana::WithPrivateRange::is_private"):
+            out.add(("is_private", bool(nb[1])))
+            continue
+        out.add(("other", show(c[0])[:60]))
+    return out
+
+
 def _classify(ctx, key, private):
     prog = ctx.prog
     f = prog.fn(key)
@@ -214,13 +243,17 @@ def _classify(ctx, key, private):
             payload = inner[3][0][1]
             n_ok[v] = n_ok.get(v, 0) + 1
             if v == "Assigned":
-                # payload = (from_i64(i) as Some).0, reached when from_i64 returned Some
+                # payload = (from_i64(i) as Some).0, reached when from_i64 returned Some - and under no other condition
                 ok = (payload[0] == "field" and payload[1][0] == "variant" and payload[1][2] == "Some"
                       and is_call(payload[1][1], "iana::EnumI64::from_i64"))
                 if ok:
                     arg = payload[1][1][2][0]
                     ok = _is_narrowed(arg)
                     narrowed = arg
+                guards = _chain_guards(prog, pv, conds)
+                if guards != {("from_i64", ("Some",))}:
+                    ok = False
+                    problems.append("Assigned is produced under %s, must be exactly `from_i64(i) is Some`" % sorted(guards))
                 seen["Assigned"] = ok
             elif v == "PrivateUse":
                 ok = private and _is_narrowed(payload)
@@ -233,6 +266,10 @@ def _classify(ctx, key, private):
                     cv = cond_variants(prog, pv, c)
                     if cv and is_call(cv[0], "iana::EnumI64::from_i64") and cv[0][2][0] == payload and cv[1] == {"None"}:
                         g_none = True
+                guards = _chain_guards(prog, pv, conds)
+                if guards != {("from_i64", ("None",)), ("is_private", True)}:
+                    ok = False
+                    problems.append("PrivateUse is produced under %s, must be exactly `from_i64(i) is None and is_private(i)`" % sorted(guards, key=str))
                 seen["PrivateUse"] = ok and g_none and g_priv
             elif v == "Text":
                 seen["Text"] = payload == ("field", ("variant", ("param", 0), "Text"), "0")
@@ -241,6 +278,11 @@ def _classify(ctx, key, private):
         elif o["kind"] == "err":
             name = inner[2] if inner[0] == "aggr" else show(inner)
             seen.setdefault("errs", []).append(name)
+            if name in ("UnregisteredIanaValue", "UnregisteredIanaNonPrivateValue"):
+                guards = _chain_guards(prog, pv, conds)
+                want_g = {("from_i64", ("None",)), ("is_private", False)} if private else {("from_i64", ("None",))}
+                if guards != want_g:
+                    problems.append("%s is returned under %s, must be exactly %s" % (name, sorted(guards, key=str), sorted(want_g, key=str)))
         elif o["kind"] == "propagate":
             seen.setdefault("propagates", []).append(show(inner)[:80])
         elif o["kind"] == "call" and is_call(t) and t[1].startswith("util::cbor_type_error"):
